@@ -16,7 +16,7 @@ CHUNK = {"quick": 20, "thorough": 100}
 PROBES = ["read_after_modification", "stale_cache_opportunity", "nested_modification_via_tree", "variant_block", "default_variant",
           "data_transform_list", "execute_list", "beacon_gate_list", "repeated_option", "repeated_block", "kwargs_style",
           "calls_style", "reparse", "empty_block", "pair_statement", "same_text_parsed_twice", "escape_at_edge_of_literal",
-          "option_value_as_bytes"]
+          "option_value_as_bytes", "caller_touches_returned_dict"]
 RULE = ("seeded histories (2-24 ops) on one C2Profile: 'add' ops append a global option or a fully built block (all 11 "
         "block kinds, options by alias/keyword table, header/parameter/strrep pairs, data-transform lists in the six "
         "non-variant list paths, execute and BeaconGate lists, process-inject transform-x86) built either through kwargs "
@@ -632,7 +632,23 @@ def execute(plan: dict) -> Result:
                     res.probes["stale_cache_opportunity"] += 1
                     res.nontrivial = True
                 if kind in ("as_dict", "properties"):
-                    got = _plain(prof.as_dict() if kind == "as_dict" else prof.properties)
+                    view = prof.as_dict() if kind == "as_dict" else prof.properties
+                    got = _plain(view)
+                    # what a caller does with the dictionary it was handed: look up a path the profile does not have - KeyError,
+                    # and no trace of the lookup in later reads. (Entries a caller ADDS to the returned dictionary are not
+                    # tried: on the pinned tree the returned object is the cache itself, and the property speaks of
+                    # modifications of the profile, not of the dictionary.)
+                    if (oi + len(got)) % 2 == 0:
+                        res.probes["caller_touches_returned_dict"] += 1
+                        try:
+                            view["no.such.path"]
+                            absent = "returned a value"
+                        except KeyError:
+                            absent = None
+                        if absent:
+                            res.violate(("C11", "history", "absent_path_lookup_does_not_raise"),
+                                        f"looking up a path the profile does not contain in the returned dictionary {absent}")
+                            return res
                     res.log.log("read", oi, kind, sorted(got.items()).__repr__())
                     if got != want:
                         res.violate(("C11", "history", "dict_differs", _diff_kind(got, want),
